@@ -1,10 +1,16 @@
 """Texts for MANIFEST.json (kept next to the stage registry so they stay in step)."""
 
+import subprocess
+try:
+    SOURCE_COMMITS = [l.split()[0] for l in subprocess.run(["git", "-C", "/repo", "log", "--format=%H %s"], capture_output=True, text=True).stdout.splitlines() if " verif hook:" in l]
+except Exception:
+    SOURCE_COMMITS = []
+
 HOOKS = dict(
     guard="verif",
     enable="go build -tags verif (the harness module in /verif/harness replaces the gonnx module by /repo)",
     baseline_off_cmd="cd /repo && GOFLAGS=-mod=mod GOPROXY=off GOSUMDB=off GOTOOLCHAIN=local go test -vet=off -count=1 -timeout 25m ./...",
-    source_commits=[],
+    source_commits=SOURCE_COMMITS,
     add_only=True,
 )
 
@@ -133,4 +139,14 @@ CHECKS = {
         note=COMMON_NOTE,
         technique="TLA+ Signature/RunSem specification + TLC BFS case enumeration, replayed into NewModelFromBytes + Run",
         design_ref="DESIGN.md section 6 (C13)"),
+    "C01": dict(
+        text="Bounded-exhaustive over PROGRAMS: spec/RunSem.tla gives Run its functional meaning (environment of names, nodes applied in "
+             "list order, positional output binding, empty name = absent input, caller value over initializer default) on top of the "
+             "operator semantics; the TLA+ program builder of MC_C01 (actions AddNode over a typed template catalogue) is explored by TLC "
+             "breadth-first, so every well-typed program within the bound is produced exactly once together with the expected value of "
+             "every tensor; each is marshalled to bytes, loaded with NewModelFromBytes and run, all declared outputs compared exactly, "
+             "caller tensors / weights snapshotted and the result compared with a freshly loaded model.",
+        note=COMMON_NOTE,
+        technique="TLA+ interpreter semantics (RunSem) + TLC BFS over a program-builder state machine, behaviours replayed into NewModelFromBytes + Run",
+        design_ref="DESIGN.md section 6 (C01)"),
 }
